@@ -3,7 +3,7 @@ P21 = "Claripy.Props.C21."
 P22 = "Claripy.Props.C22."
 V = "Claripy.VSA."
 THEOREMS_C21 = [P21 + n for n in ("C21_add_sound", "C21_add_closed", "C21_sub_sound", "C21_sub_closed", "C21_neg_sound",
-                                  "C21_not_sound", "C21_zext_sound", "C21_ucmp_sound", "C21_scmp_sound", "C21_cast_low_sound", "C21_extract_sound", "C21_sext_sound", "C21_udiv_sound", "C21_lshr_sound", "C21_shl_sound", "C21_or_sound", "C21_warren_bounds", "C21_and_sound", "C21_xor_sound", "C21_concat_sound", "C21_ashr_sound", "C21_eq_sound", "eq_unaligned_unsound", "C21_mul_aligned", "C21_mul_closed", "C21_mod_sound",
+                                  "C21_not_sound", "C21_zext_sound", "C21_ucmp_sound", "C21_scmp_sound", "C21_cast_low_sound", "C21_extract_sound", "C21_sext_sound", "C21_udiv_sound", "C21_lshr_sound", "C21_shl_sound", "C21_or_sound", "C21_warren_bounds", "C21_and_sound", "C21_xor_sound", "C21_concat_sound", "C21_ashr_sound", "C21_eq_sound", "eq_unaligned_unsound", "C21_mul_aligned", "C21_mul_closed", "C21_mod_sound_partial",
                                   "sdiv_unsound", "mul_unaligned_unsound")] + \
                [V + n for n in ("ssplit_spec", "ssplit_wrap", "not_sound", "zext_sound", "ucmp_sound", "cmpWith_sound",
                                 "unsignedBounds_spec", "not_piece_mem", "widen_bits_mem",
